@@ -41,6 +41,31 @@ CHECKS = {
         technique="TLA+ spec Variation.tla (flip masks and UMAD keep/insert decisions as explicit choices); TLC exhaustive over genomes <= 4/6, rates {0,1/4,1/2,1,3/2}, three UMAD constructors, with FlipShape / UmadShape / degenerate-rate identities as invariants; random real mutations trace-validated, TLC infers the decision vector",
         text="TLC enumerates every outcome the specification allows for every small genome, rate and UMAD configuration and checks the clauses of the property (same length, in place, survivors in order, at most one insertion per position, new genes from the generator, the four degenerate-rate identities, the empty-parent cases), and that the membership test used for trace validation accepts exactly those outcomes; random real calls of WithRate, WithOneOverLength (Vec<bool>, Bitstring) and Umad (Vector, Plushy; lengths 0..12) must each be explainable by some decision vector.",
         note="Genes are tagged so explanations are unique. Rates strictly inside (0,1) may produce any mask; measure-zero events are not claimed."),
+    "C06": dict(
+        cat="model_checking", ref="DESIGN.md §4 C06",
+        technique="TLA+ spec Selection.tla (+Weighted.tla): every random decision an explicit choice; TLC invariant ResultSound over all small populations x configurations; every configuration replayed on Vec/VecDeque/array populations of probe individuals (member identity by address); random selections incl. weighted / nested / type-erased combinations trace-validated by TLC",
+        text="For every selector configuration over every population of 0..3/4 individuals (empty, singleton, ties, duplicates, tournament sizes up to n+1, lexicase case counts around the available results, ragged results) TLC derives the exact set of allowed results (a member index or the documented error with its payload) and checks soundness; the real selectors are run on each of them repeatedly and must return that very element (located by address) or exactly that error, never panic; thousands of random selections, including random weighted trees of the real selectors and their Box<dyn DynSelector> form, must be explainable by the specification.",
+        note="Member identity = address equality with an element of the population passed in. Error texts are not compared; payloads are."),
+    "C07": dict(
+        cat="model_checking", ref="DESIGN.md §4 C07",
+        technique="TLA+ Selection.tla: TLC checks Pressure / TournamentExtremes and derives the tournament law by counting k-subsets (closed form C(r-1,k-1)/C(n,k) checked as invariant); trace validation with the drawn subset observed through probe comparisons; empirical winner and subset frequencies compared with the TLC-derived law under an explicit error budget",
+        text="Maximality / minimality and 'winner at least as good as k-1 others', k=1 = uniform, k=n = best are TLC invariants over all small populations; for the real code every observed tournament must have compared exactly k distinct members with the winner maximal among them (the subset is observed because probe individuals log Ord::cmp), and over 60k (thorough 1.5M) draws per configuration the winner frequencies must match the law TLC derived by counting subsets and all C(n,k) subsets must be equally frequent (per-cell alpha 1e-12).",
+        note="Statistical part decides 'within epsilon of the law' (epsilon reported in evidence), not exact equality. Assumes the supplied RNG is uniform."),
+    "C08": dict(
+        cat="model_checking", ref="DESIGN.md §4 C08",
+        technique="TLA+ Selection.tla lexicase: TLC checks survivorship, non-domination, degenerate cases and that the trace-acceptance predicate accepts exactly the runs of the filter; real selections trace-validated from the logged per-case comparisons; winner and first-case frequencies compared with the TLC-derived law",
+        text="On every result matrix of up to 3 individuals x 2/3 cases over 3 values, both polarities, TLC checks that winners survive some case order, are never Pareto-dominated, that zero cases / one individual degenerate correctly and derives each individual's exact selection probability; every real selection logs the comparisons its probe results took part in and TLC checks that the visited cases are distinct, that exactly the survivors were compared at each case, that filtering did not stop early and that the winner is a final survivor; winner frequencies and the first visited case must match the derived law.",
+        note="As C07 for the statistical part. Case order is observed through Ord::cmp of probe results."),
+    "C13": dict(
+        cat="model_checking", ref="DESIGN.md §4 C13",
+        technique="TLA+ spec Weighted.tla; TLC over all tree shapes <= 3/4 leaves x weights 0..3, dynamic lists and construction sequences (Proportional as cross-multiplied invariant for every shape); replay on real Weighted/WeightedPair/WithWeightedItem/DynWeighted with marker members; empirical member frequencies vs the law",
+        text="TLC checks for every binary tree shape and weight assignment that exactly one member of positive weight is delegated to, that P(leaf) x total = weight for every nesting, that all-zero is the zero-weight error and that chain construction overflows exactly when the running sum exceeds the maximum (sticky afterwards); each tree, list and construction sequence is executed on the real combinators (members are markers that count invocations and return an identifiable individual) and member frequencies over 60k/1M selections are compared with the derived law.",
+        note="Trees are carrier enums around the real WeightedPair (types are static, shapes are data). Weights near u32::MAX are modelled near WMax=100."),
+    "C15": dict(
+        cat="model_checking", ref="DESIGN.md §4 C15",
+        technique="TLA+ spec Ordering.tla: order laws checked by TLC on the small domain; one implementation test per spec case (every pair, cross pair, vector pair) evaluated on Score, Error, TestResult, TestResults, EcIndividual; construction clause trace-validated",
+        text="Reflexivity, antisymmetry, transitivity, totality, exact reversal for errors, operator-family coherence, cross-kind incomparability and 'vectors and individuals compare as their totals' are checked by TLC on values -2..2 / vectors <= 2/3; every case is evaluated with every comparison operator on the real types with values mapped onto {MIN,-1,0,1,MAX}; IndividualGenerator and GenomeScorer are traced with a recording genome maker and scorer.",
+        note="Vector sums use small values (overflow of iter().sum() is outside the property)."),
 }
 
 PENDING = {}
